@@ -130,6 +130,31 @@ func buildCorpus(c *Ctx, nGen int, withRepo, withStd bool) ([]corpusFn, error) {
 			}
 		}
 	}
+	// the adversarial families of the C17 suite at sizes that cross the depth, size, cycle and loop-depth
+	// guards: the model has to take the same guard at the same point
+	if nGen > 0 {
+		sizes := map[string]int{"doubling-dag-inside-loop": 12, "doubling-dag-feeding-loop-bounds": 12, "nested-loops": 70, "phi-rotation-cycles": 8, "deep-expression": 130, "identical-ops-on-one-value": 40}
+		for _, fam := range dosFamilies(false) {
+			n, ok := sizes[fam.name]
+			if !ok {
+				continue
+			}
+			src, _ := fam.gen(n)
+			f, err := writeModule(c.Work, "cgdos_"+fam.name, "a.go", src)
+			if err != nil {
+				return nil, err
+			}
+			res, err := fingerprintFile(f, src, ir.DefaultLiteralPolicy)
+			if err != nil {
+				return nil, fmt.Errorf("adversarial family %s does not load: %v", fam.name, err)
+			}
+			for _, fr := range res {
+				if fn := fr.GetSSAFunction(); fn != nil {
+					corpus = append(corpus, corpusFn{fr.FunctionName, "guards:" + fam.name, fn})
+				}
+			}
+		}
+	}
 	if withRepo {
 		repo := os.Getenv("VERIF_REPO")
 		if repo == "" {
